@@ -778,6 +778,68 @@ fn fstring_host_bodies() -> Vec<Block> {
     out
 }
 
+// ---- the iterable of a `for` is evaluated once -----------------------------------
+// (seeded change C08-9: a bare local used in place as the source of every `get`, so a body
+// that reassigns the variable changes what the following iterations see)
+
+fn for_iterable_bodies() -> Vec<Block> {
+    let lit = |v: i128| E::Int(v, None, I32);
+    let emit = |x: E| E::Host("emit_i32".into(), vec![x]);
+    let list = |v: Vec<E>| E::ListLit(v);
+    let mut out = vec![];
+    for new_list in [list(vec![lit(10), lit(20), lit(30), lit(40)]), list(vec![]), list(vec![em()])] {
+        // over a local
+        out.push(blk(
+            vec![
+                S::Let("xs".into(), None, list(vec![em(), em(), lit(3)])),
+                S::Expr(E::For(
+                    "x".into(),
+                    Box::new(var("xs")),
+                    blk(vec![S::Expr(emit(var("x"))), S::Expr(E::Assign(vec!["xs".into()], Box::new(new_list.clone()))), S::Expr(em())], None),
+                )),
+                // what the variable holds afterwards
+                S::Expr(E::For("y".into(), Box::new(var("xs")), blk(vec![S::Expr(emit(var("y")))], None))),
+            ],
+            Some(em()),
+        ));
+        // over a parameter of a helper is covered by `lst`; over a field of a record
+        out.push(blk(
+            vec![
+                S::Let("rc".into(), None, E::Rec(None, vec![("l".into(), list(vec![em(), lit(2)]))])),
+                S::Expr(E::For(
+                    "x".into(),
+                    Box::new(E::Field(Box::new(var("rc")), "l".into())),
+                    blk(vec![S::Expr(emit(var("x"))), S::Expr(E::Assign(vec!["rc".into(), "l".into()], Box::new(new_list.clone())))], None),
+                )),
+            ],
+            Some(em()),
+        ));
+    }
+    // pushes through the variable ARE seen (lists are shared): bounded by a length test
+    out.push(blk(
+        vec![
+            S::Let("xs".into(), None, list(vec![em(), lit(2)])),
+            S::Expr(E::For(
+                "x".into(),
+                Box::new(var("xs")),
+                blk(
+                    vec![
+                        S::Expr(emit(var("x"))),
+                        S::Expr(E::If(
+                            Box::new(bin(BinOp::Lt, E::Method(Box::new(var("xs")), "len".into(), vec![]), E::Int(4, None, IntTy::U64))),
+                            blk(vec![S::Expr(E::Method(Box::new(var("xs")), "push".into(), vec![em()]))], None),
+                            None,
+                        )),
+                    ],
+                    None,
+                ),
+            )),
+        ],
+        Some(em()),
+    ));
+    out
+}
+
 pub fn entry(name: &str, body: Block) -> Func {
     Func {
         name: name.into(),
@@ -804,6 +866,7 @@ pub fn all_bodies(tier: Tier) -> Vec<Block> {
     out.extend(unit_bodies());
     out.extend(examinee_bodies());
     out.extend(fstring_host_bodies());
+    out.extend(for_iterable_bodies());
     for b in &mut out {
         let mut k = 0;
         number_block(b, &mut k);
